@@ -47,18 +47,18 @@ func (x *Exec) bindSig(c *SpecCtx, sig *types.Signature, paramNames []string, ar
 	}
 	for i, n := range paramNames {
 		if i < len(args) && i < len(ptypes) && n != "" && n != "_" {
-			c.env[n] = envEntry{args[i], ptypes[i]}
+			c.env[n] = envEntry{v: args[i], t: ptypes[i]}
 		}
 	}
 	if results != nil {
 		rn := resultNames(fn, sig, con)
 		for i, n := range rn {
 			if i < len(results) {
-				c.env[n] = envEntry{results[i], sig.Results().At(i).Type()}
+				c.env[n] = envEntry{v: results[i], t: sig.Results().At(i).Type()}
 			}
 		}
 		if len(rn) == 1 {
-			c.env["result"] = envEntry{results[0], sig.Results().At(0).Type()}
+			c.env["result"] = envEntry{v: results[0], t: sig.Results().At(0).Type()}
 		}
 	}
 }
@@ -466,21 +466,23 @@ func (x *Exec) call(fr *Frame, st *State, reach string, cc *ssa.CallCommon, ins 
 		x.emit(fmt.Sprintf("(assert (>= %s %s))", na, st.alc))
 		st.alc = na
 		res := x.havocVal(rt, "dyn")
-		// assumed behaviour of user callbacks (A-user), stated in the contract of the enclosing function
-		if x.con != nil && fr.top {
-			for _, cl := range x.con.Callback {
-				cc2 := x.newCtx(st, topFrame.entry, x.con.Pkg, reach, fr)
-				x.bindFrameNames(fr, ins.Block(), cc2)
-				x.bindBlockNames(fr, ins.Block(), cc2)
-				f, err := cc2.formula(cl.E)
-				if err != nil {
-					x.fatal("%s:%d: callback ensures: %v", cl.File, cl.Line, err)
-					continue
+		if par, ok := cc.Value.(*ssa.Parameter); ok && x.con != nil && fr.top {
+			for _, inv := range x.con.Invokes {
+				if inv == par.Name() {
+					flag := "G$invoked$" + inv
+					prev := x.heap(st, flag, "Bool")
+					x.oblige(x.oblName(fr, "invokes", ins.Pos(), inv+".once"), "invokes", reach, not(prev), nil, x.posText(ins.Pos())+": "+inv+" is invoked at most once")
+					x.setHeap(st, flag, "Bool", "true")
+					if iv, ok := res.(IfaceV); ok {
+						x.heap(st, "G$cbresult$"+inv+".tag", "Int")
+						x.setHeap(st, "G$cbresult$"+inv+".tag", "Int", iv.Tag)
+						x.heap(st, "G$cbresult$"+inv+".ref", "Int")
+						x.setHeap(st, "G$cbresult$"+inv+".ref", "Int", iv.Ref)
+					}
 				}
-				x.assume(reach, f)
-				x.assumed["user callback assumed to satisfy: "+cl.Text] = true
 			}
 		}
+		x.assumeCallbackClauses(fr, st, reach, ins)
 		return res
 	}
 	key := funcKey(callee)
@@ -586,7 +588,7 @@ func (x *Exec) applyContract(fr *Frame, st *State, reach string, con *Contract, 
 	c := x.newCtx(st, pre, con.Pkg, reach, fr)
 	if callee == nil && recvT != nil {
 		// bind receiver with the interface type
-		c.env["self"] = envEntry{args[0], recvT}
+		c.env["self"] = envEntry{v: args[0], t: recvT}
 		sig = types.NewSignatureType(nil, nil, nil, sig.Params(), sig.Results(), sig.Variadic())
 		x.bindSig(c, sig, pnames[1:], args[1:], con, callee, nil)
 	} else {
@@ -675,6 +677,61 @@ func (x *Exec) applyContract(fr *Frame, st *State, reach string, con *Contract, 
 	} else {
 		x.applyMods(st, []modLoc{{heap: "*nonghost", whole: true}})
 	}
+	// higher-order protocol: parameters listed under 'invokes' are called at most once by the callee
+	invokedFlag := map[string]string{}
+	cbResult := map[string]Val{}
+	if callee != nil {
+		for _, inv := range con.Invokes {
+			for pi, p := range callee.Params {
+				if p.Name() != inv || pi >= len(args) {
+					continue
+				}
+				fv, ok := args[pi].(Sc)
+				g := x.fresh("invoked."+inv, "Bool")
+				invokedFlag[inv] = g
+				if !ok || fv.Fn == nil {
+					// unknown function value passed on: its effect is a callback havoc under g
+					after := st.clone()
+					x.applyMods(after, []modLoc{{heap: "*nonghost", whole: true}})
+					x.assumed["function value passed to "+key+" in "+funcKey(fr.fn)+" (callback: havoc of all non-ghost state)"] = true
+					x.assumeCallbackClauses(fr, after, and(reach, g), ins)
+					merged := x.mergeStates([]string{g, "true"}, []*State{after, st})
+					merged.defers = st.defers
+					*st = *merged
+					psig, _ := p.Type().Underlying().(*types.Signature)
+					if psig != nil && psig.Results().Len() == 1 {
+						cbResult[inv] = x.havocVal(psig.Results().At(0).Type(), "cbres."+inv)
+					}
+					continue
+				}
+				// known closure: call it on a copy of the state under guard g
+				after := st.clone()
+				var cargs []Val
+				for k := range fv.Fn.Params {
+					cargs = append(cargs, x.havocVal(fv.Fn.Params[k].Type(), "cbarg"))
+				}
+				var crt types.Type = fv.Fn.Signature.Results()
+				if fv.Fn.Signature.Results().Len() == 1 {
+					crt = fv.Fn.Signature.Results().At(0).Type()
+				}
+				var cres Val
+				ckey := funcKey(fv.Fn)
+				if ccon := x.eng.contracts[ckey]; ccon != nil {
+					x.curClo = fv.Clo
+					cres = x.applyContract(fr, after, and(reach, g), ccon, fv.Fn, fv.Fn.Signature, cargs, ins, crt, ckey, nil)
+					x.curClo = closureVals
+				} else {
+					x.assumed[ckey+" (callback closure without contract: havoc of inferred effects)"] = true
+					x.havocEffects(after, x.eng.eff.funcEffects(fv.Fn))
+					cres = x.havocVal(crt, "cbres."+inv)
+				}
+				cbResult[inv] = cres
+				merged := x.mergeStates([]string{g, "true"}, []*State{after, st})
+				merged.defers = st.defers
+				*st = *merged
+			}
+		}
+	}
 	// results
 	res := x.havocVal(rt, "r."+short)
 	var rvals []Val
@@ -692,11 +749,17 @@ func (x *Exec) applyContract(fr *Frame, st *State, reach string, con *Contract, 
 	}
 	c2 := x.newCtx(st, pre, con.Pkg, reach, fr)
 	if callee == nil && recvT != nil {
-		c2.env["self"] = envEntry{args[0], recvT}
+		c2.env["self"] = envEntry{v: args[0], t: recvT}
 		x.bindSig(c2, sig, pnames[1:], args[1:], con, callee, rvals)
 	} else {
 		x.bindSig(c2, sig, pnames, args, con, callee, rvals)
 		x.bindClosureVars(c2, callee, closureVals, st)
+	}
+	for inv, g := range invokedFlag {
+		c2.env["invoked$"+inv] = envEntry{v: B(g), t: tBool}
+		if r, ok := cbResult[inv]; ok {
+			c2.env["cbresult$"+inv] = envEntry{v: r, t: types.Universe.Lookup("error").Type()}
+		}
 	}
 	for _, cl := range con.Ensures {
 		f, err := c2.formula(cl.E)
@@ -970,11 +1033,11 @@ func (x *Exec) bindTop(c *SpecCtx, results []Val) {
 		if sc, ok := v.(Sc); ok && sc.Loc != nil {
 			et := derefType(fv.Type())
 			if et != nil && kindOf(et) != KStruct {
-				c.env[fv.Name()] = envEntry{x.load(c.cur, sc.Loc, et), et}
+				c.env[fv.Name()] = envEntry{v: x.load(c.cur, sc.Loc, et), t: et, loc: sc.Loc}
 				continue
 			}
 		}
-		c.env[fv.Name()] = envEntry{v, fv.Type()}
+		c.env[fv.Name()] = envEntry{v: v, t: fv.Type()}
 	}
 }
 
@@ -993,10 +1056,30 @@ func (x *Exec) bindClosureVars(c *SpecCtx, callee *ssa.Function, clo []Val, st *
 		if sc, ok := v.(Sc); ok && sc.Loc != nil {
 			et := derefType(fv.Type())
 			if et != nil && kindOf(et) != KStruct {
-				c.env[fv.Name()] = envEntry{x.load(c.cur, sc.Loc, et), et}
+				c.env[fv.Name()] = envEntry{v: x.load(c.cur, sc.Loc, et), t: et, loc: sc.Loc}
 				continue
 			}
 		}
-		c.env[fv.Name()] = envEntry{v, fv.Type()}
+		c.env[fv.Name()] = envEntry{v: v, t: fv.Type()}
+	}
+}
+
+// assumeCallbackClauses: assumed behaviour of user callbacks (A-user), stated in the contract of the
+// function being verified ("callback ensures ...").
+func (x *Exec) assumeCallbackClauses(fr *Frame, st *State, reach string, ins ssa.Instruction) {
+	if x.con == nil || !fr.top || topFrame == nil {
+		return
+	}
+	for _, cl := range x.con.Callback {
+		cc2 := x.newCtx(st, topFrame.entry, x.con.Pkg, reach, fr)
+		x.bindFrameNames(fr, ins.Block(), cc2)
+		x.bindBlockNames(fr, ins.Block(), cc2)
+		f, err := cc2.formula(cl.E)
+		if err != nil {
+			x.fatal("%s:%d: callback ensures: %v", cl.File, cl.Line, err)
+			continue
+		}
+		x.assume(reach, f)
+		x.assumed["user callback assumed to satisfy: "+cl.Text] = true
 	}
 }
